@@ -4,6 +4,7 @@ From Coq Require Import Lia.
 From stdpp Require Import relations.
 From PintV Require Import Model.UC Model.Eval Model.Registry Model.Groups Model.Systems.
 From PintV Require Import Proofs.UCProofs Proofs.RegistryProofs Proofs.GroupsProofs.
+From PintV Require Import Gen.DefaultDefs Gen.DefaultReg.
 Open Scope string_scope.
 Arguments root_of : simpl never.
 Arguments conv_factor : simpl never.
@@ -317,7 +318,7 @@ Theorem rule_inversion_refuted :
   rule_dim_ok faithful tiny_reg "gee: meter" = false ∧ f11_base faithful = Err EDim
   ∧ rule_dim_ok repaired tiny_reg "gee: meter" = true
   ∧ match f11_base repaired with Ok (Some q, true, b) => uc_eqb b (mkuc [("gee", mkq 1 1); ("second", mkq 2 1)]) | _ => false end = true.
-Proof. repeat split; vm_compute; reflexivity. Qed.
+Proof. repeat match goal with |- _ ∧ _ => split end; vm_compute; reflexivity. Qed.
 
 (** * The default system *)
 (** every cached answer is the cache-free answer for the current default system *)
@@ -415,7 +416,7 @@ Theorem cache_stale_refuted :
   ∧ units_are (f67_run repaired) [("meter", mkq 1 1)] = true
   ∧ units_are (f68_run faithful) [("kilogram", mkq 1 1)] = true     (* asked with no system: the root unit is gram *)
   ∧ units_are (f68_run repaired) [("gram", mkq 1 1)] = true.
-Proof. repeat split; vm_compute; reflexivity. Qed.
+Proof. repeat match goal with |- _ ∧ _ => split end; vm_compute; reflexivity. Qed.
 
 (** * Restricted compatible units *)
 (** the unrestricted answer: the names listed under the dimensionality of the input *)
@@ -493,10 +494,22 @@ Definition in_sys_members (qk : quirks) (st : sstate) (s u : string) : bool :=
   match (sys_members qk st s).2 with Ok v => bool_decide (u ∈ v) | Err _ => false end.
 Definition base_is (x : res bans) (q : Qc) (l : list (string * Qc)) : bool :=
   match x with Ok (Some f, true, b) => bool_decide (f = q) && uc_eqb b (mkuc l) | _ => false end.
+(** every walk from scratch (all memos cleared first) ends within [fuel_of] *)
 Definition all_groups_walk (gs : gstate) : bool :=
-  forallb (λ kg : string * group, match members_val gs kg.1 with Ok _ => true | Err _ => false end) (map_to_list gs).
+  let cold := clear (dom gs) gs in
+  forallb (λ kg : string * group, match members_val cold kg.1 with Ok _ => true | Err _ => false end) (map_to_list cold).
+(** the state after reading the members of the two big groups once (their memos are then filled) *)
+Definition warmed (gs : gstate) : gstate := (members (members gs "root").1 "international").1.
 Definition all_single_root (st : sstate) : bool :=
   forallb (λ ks : string * system, single_rootb ks.2) (map_to_list (ss_systems st)).
 Definition compat_is (x : res sset) (l : list string) : bool :=
   match x with Ok v => bool_decide (v = list_to_set l) | Err _ => false end.
 Definition name_is (x : res string) (n : string) : bool := match x with Ok m => String.eqb m n | Err _ => false end.
+
+(** the bundled registry's groups and systems as regenerated from /repo (T1); closed constants so
+    that one [vm_compute] evaluates them once *)
+Definition default_built : sstate * res unit :=
+  build_state faithful default_reg default_raw default_groups default_systems default_defaults.
+Definition default_state : sstate := default_built.1.
+Definition default_warm : gstate := warmed (ss_groups default_state).
+Definition default_dimeq : list (string * uc) := dimeq_table default_reg.
